@@ -90,7 +90,7 @@ func runC08(r *engine.Run) {
 	}
 	domRecheck(r, "DOM-recheck")
 	domTombstone(r)
-	pairUnlock(r, "PAIR-unlock", funcsOfPkg(r, pkgSC), 8)
+	pairUnlock(r, "PAIR-unlock", funcsOfPkg(r, pkgSC), 4)
 }
 
 func orderPublish(r *engine.Run, commit *ssa.Function) {
